@@ -1,5 +1,6 @@
 import OpenHTF.Driver.C20
 import OpenHTF.Driver.C16
+import OpenHTF.Driver.C13
 open OpenHTF.Driver
 
 def stripNl (s : String) : String :=
@@ -9,6 +10,7 @@ def dispatch (line : String) : String :=
   match words line with
   | "C20" :: ts => C20.handle ts
   | "C16" :: ts => C16.handle ts
+  | "C13" :: ts => C13.handle ts
   | _ => reply false false "unknown-property"
 
 partial def loop (i o : IO.FS.Stream) (acc : Array String) (n : Nat) : IO Unit := do
